@@ -19,7 +19,8 @@ static Fields gen(Tape &t) {
   g_source_base(t, &S, &B, &k);
   f.set("src", S.text());
   f.set("base", B.text());
-  f.seti("mode", t.below(2));
+  // UriBool is an int: one case in twelve passes a non-zero value other than URI_TRUE; the round trip holds under either reading
+  { static const int odd[] = {2, -1, 256}; f.seti("mode", t.chance(11, 12) ? (long long)t.below(2) : odd[t.below(3)]); }
   f.seti("mm", t.below(2));
   f.seti("klass", k);
   // recording manager only: the k-th allocation of the call fails once; success is then still held to the round trip
@@ -98,7 +99,9 @@ template <class A> static Verdict check_type(const Fields &f, bool *relativeBran
   };
   std::string &intactErr = intact_error();
   intactErr.clear();
-  int mode = (int)f.geti("mode");
+  int modeRaw = (int)f.geti("mode");
+  int mode = modeRaw != 0;
+  bool modeCanonical = modeRaw == 0 || modeRaw == 1;
   LedgerMM mm;
   bool useMm = f.geti("mm") != 0;
   Intact intact{&ps.uri, Bp, S, B, &intactErr};
@@ -106,8 +109,8 @@ template <class A> static Verdict check_type(const Fields &f, bool *relativeBran
   memset(&d, 0xA5, sizeof d);
   int fault = useMm ? (int)f.geti("fault") : 0;
   if (fault > 0) mm.fail_at = (uint64_t)fault;
-  int rc = useMm ? A::RemoveBaseUriMm(&d, &ps.uri, Bp, mode ? URI_TRUE : URI_FALSE, &mm.mm)
-                 : A::RemoveBaseUri(&d, &ps.uri, Bp, mode ? URI_TRUE : URI_FALSE);
+  int rc = useMm ? A::RemoveBaseUriMm(&d, &ps.uri, Bp, (UriBool)modeRaw, &mm.mm)
+                 : A::RemoveBaseUri(&d, &ps.uri, Bp, (UriBool)modeRaw);
   struct Cl { typename A::Uri *u; UriMemoryManager *m; bool on; ~Cl() { if (on) A::FreeUriMembersMm(u, m); } };
   Cl cd{&d, useMm ? &mm.mm : nullptr, true};
   bool bit = mm.failed > 0;
@@ -179,7 +182,7 @@ template <class A> static Verdict check_type(const Fields &f, bool *relativeBran
   bool provable = S.hasAuth() || (!S.hasAuth() && !B.hasAuth() && S.absolutePath);
   if (provable && D.scheme) return fail("S and B share the scheme and a scheme-less reference exists, but the reference keeps the scheme");
   if (same_authority(S, B) && D.hasAuth()) return fail("S and B share the whole authority but the reference keeps an authority");
-  if (mode == 1 && same_authority(S, B) && S.hasAuth()) {
+  if (mode == 1 && modeCanonical && same_authority(S, B) && S.hasAuth()) {
     std::string dp = D.pathText();
     if (dp.empty() || dp[0] != '/') return fail("domain-root mode: the reference path '" + dp + "' is not absolute");
   }
